@@ -359,11 +359,86 @@ var c11Model = hx.Define("c11.nesting", func(c *progCase, s *hx.Sub) *hx.Violati
 
 func ip(i int) *int { return &i }
 
+// cycle emits its values, exactly: also values that begin or end with white space, beside a hyphenated neighbour
+
+type c11CycleWsCase struct {
+	Vals []string `json:"vals"`
+	N    int      `json:"n"`
+	Form int      `json:"form"`
+}
+
+var c11CycleWs = hx.Define("c11.cycle-values-exact", func(c *c11CycleWsCase, s *hx.Sub) *hx.Violation {
+	var lits []string
+	for _, v := range c.Vals {
+		lits = append(lits, "\""+v+"\"")
+	}
+	cyc := "{% cycle " + strings.Join(lits, ", ") + " %}"
+	var src string
+	switch c.Form {
+	case 0:
+		src = "{% for i in (1..n) %}" + cyc + "{%- endfor %}|"
+	case 1:
+		src = "{% for i in (1..n) -%}" + cyc + "{% endfor %}|"
+	case 2:
+		src = "{% for i in (1..n) %}{% assign z = i -%}" + cyc + "{%- assign z = i %}{% endfor %}|"
+	case 3:
+		src = "{% tablerow i in (1..n) cols: 2 -%}" + cyc + "{%- endtablerow %}|"
+	default:
+		src = "{% for i in (1..n) %}{{ i -}}" + cyc + "{{- i }}{% endfor %}|"
+	}
+	want := ""
+	for i := 0; i < c.N; i++ {
+		v := c.Vals[i%len(c.Vals)]
+		switch c.Form {
+		case 3:
+			if i%2 == 0 {
+				want += fmt.Sprintf("<tr class=\"row%d\">", i/2+1)
+			}
+			want += fmt.Sprintf("<td class=\"col%d\">%s</td>", i%2+1, v)
+			if i%2 == 1 || i == c.N-1 {
+				want += "</tr>"
+			}
+		case 4:
+			want += fmt.Sprint(i+1) + v + fmt.Sprint(i+1)
+		default:
+			want += v
+		}
+	}
+	want += "|"
+	o := hx.Render(src, map[string]any{"n": c.N})
+	if o.Panic != nil {
+		return hx.V("panic@"+o.Panic.Site, "%q: %v", src, o.Panic)
+	}
+	if !o.OK() || o.Out != want {
+		return hx.V("c11:cycle-value-trimmed", "%q with n = %d rendered %v, expected %q: cycle emits its values", src, c.N, o, want)
+	}
+	s.NT()
+	if s.WantSample() {
+		s.Sample(map[string]any{"template": src, "output": o.Out})
+	}
+	return nil
+})
+
 func TestC11(t *testing.T) {
 	col := hx.NewCollector("C11")
 	defer col.Finish()
 	col.Corpus()
 	env := col.Env
+
+	cw := c11CycleWs.On(col, "exhaustive over a list: cycle values that begin or end with spaces or newlines x n in 1..4 x {hyphen on the end tag after the cycle, on the for tag before it, on assign tags on both sides, on tablerow tags, on objects on both sides}; oracle: the values, exactly, round-robin. Distinct by construction", true)
+	{
+		i := 0
+		for _, vals := range [][]string{{"a ", " b"}, {" ", "x"}, {"\n", "y "}, {" p ", " q ", "r"}} {
+			for n := 1; n <= 4; n++ {
+				for form := 0; form <= 4; form++ {
+					i++
+					if env.Mine(i) {
+						cw.Run(&c11CycleWsCase{Vals: vals, N: n, Form: form})
+					}
+				}
+			}
+		}
+	}
 
 	maxLen, maxMod := env.Pick(5, 7), env.Pick(6, 8)
 	grid := c11Grid.On(col, fmt.Sprintf("bounded-exhaustive grid: collection length 0..%d x offset {absent,-1..%d} x limit {absent,-1..%d} x reversed x {for, tablerow with cols absent/0..4} x {no jump, break at i, continue at i (i in 1..3)} x else/no else, over []any, []int, []string, fixed arrays, Go ranges, literal and variable ranges (all endpoint pairs in -3..6), nil and undefined collections; modifiers as literals and as variables. The body prints [item|index|index0|rindex|rindex0|length|first|last]; oracle: reverse -> skip offset -> take limit, forloop formulas of the statement, else iff nothing selected, break/continue semantics, loop variable and forloop restored afterwards, tablerow row/cell structure. Negative offset/limit: only internal consistency. Every grid point is distinct; non-trivial when >= 2 items are selected or a modifier changes the selection", maxLen, maxMod, maxMod), true)
